@@ -21,7 +21,7 @@ import (
 )
 
 type zzSel struct {
-	kind string // labels-a labels-b in-a notin-a exists bogus
+	kind string // labels-a labels-b in-a notin-a exists bogus labels-illegal everything
 }
 
 func (s zzSel) selector() metav1.LabelSelector {
@@ -39,6 +39,9 @@ func (s zzSel) selector() metav1.LabelSelector {
 	case "labels-illegal":
 		// unusable without any expression: a label value that is not a legal one
 		return metav1.LabelSelector{MatchLabels: map[string]string{"k": "not a legal value"}}
+	case "everything":
+		// an empty selector selects every node
+		return metav1.LabelSelector{}
 	}
 	return metav1.LabelSelector{MatchExpressions: []metav1.LabelSelectorRequirement{{Key: "k", Operator: "Bogus", Values: []string{"a"}}}}
 }
@@ -54,6 +57,8 @@ func (s zzSel) matches(label string) bool {
 		return label != "a"
 	case "exists":
 		return label != ""
+	case "everything":
+		return true
 	}
 	return false
 }
@@ -78,9 +83,11 @@ func zzPickSel(label string, small bool) zzSel {
 		}
 		return zzSel{"bogus"}
 	}
-	switch nondet.String(label, "labels-a", "labels-b", "in-a", "notin-a", "exists", "bogus", "labels-illegal") {
+	switch nondet.String(label, "labels-a", "labels-b", "in-a", "notin-a", "exists", "bogus", "labels-illegal", "everything") {
 	case "labels-illegal":
 		return zzSel{"labels-illegal"}
+	case "everything":
+		return zzSel{"everything"}
 	case "labels-a":
 		return zzSel{"labels-a"}
 	case "labels-b":
